@@ -185,6 +185,7 @@ def check(ctx):
     want = {'dumps': 'CommonJSONEncoder', 'dump': 'CommonJSONEncoder', 'loads': 'CommonJSONDecoder', 'load': 'CommonJSONDecoder'}
     for name, cls in want.items():
         m = ej.methods.get(name)
+        m = ctx.N(m) if m is not None else None
         ok = m is not None and has_stmt("_kw['cls'] = %s" % cls, m.node) and has_expr('json.%s(*_a, **_kw)' % name, m.node)
         run.check(ok, 'R16', m.where if m else ej.where, ej.qualname + '.' + name, "kwargs['cls'] = %s" % cls,
                   'ejson.%s does not use %s' % (name, cls))
